@@ -107,13 +107,19 @@ def cases(ctx):
             bc = {"shape": sh, "vals": [1 if rng.random() < 0.5 else 0 for _ in range(gen.size(sh))]}
         yield {"dtype": dtype, "shape": shape, "vals": vals, "markers": m, "bc": bc, "layout": rng.choice(LAYOUTS),
                "mlayout": rng.choice(LAYOUTS), "lines": rng.random() < 0.6,
-               "mdtype": rng.choice(["int64", "int32", "uint8", "uint16"]), "isolated": i % 25 == 0}
+               "mdtype": rng.choice(["int64", "int32", "uint8", "uint16"]), "isolated": i % 25 == 0,
+               # 64-bit surfaces far above 2**53: neighbouring values are distinct integers but equal as doubles
+               "base": (rng.choice([2 ** 56, 2 ** 62, -(2 ** 62)]) if dtype == "int64" else 2 ** 63 if dtype == "uint64" else 0)
+                       if rng.random() < 0.6 else 0}
 
 
 def mk(case):
     dt = case["dtype"]
     fi = np.array(case["vals"], dtype=np.int64).reshape(case["shape"])
     a0 = (fi * 0.25).astype(dt) if dt.startswith("float") else fi.astype(dt)
+    if case.get("base"):
+        a0 = a0 + np.array(case["base"], dtype=dt)      # order-preserving, exact in 64-bit integers
+        assert a0.dtype == np.dtype(dt)
     m0 = np.array(case["markers"], dtype=np.dtype(case["mdtype"])).reshape(case["shape"])
     nd = a0.ndim
     bcs = case["bc"]
